@@ -491,6 +491,41 @@ def tex_escape(text):
     return text.replace("\\", "\\\\").replace("_", "\\_")
 
 
+def escaped_name_problem(label, name):
+    """A displayed name must escape every underscore and backslash of the name (TeX commands
+    such as \\textsubscript{...} may be added around its parts) and keep its letters/digits."""
+    i = 0
+    plain = []
+    while i < len(label):
+        ch = label[i]
+        if ch == "\\":
+            nxt = label[i + 1] if i + 1 < len(label) else ""
+            if nxt in ("\\", "_"):
+                plain.append(nxt)
+                i += 2
+                continue
+            m = re.match(r"\\[A-Za-z]+", label[i:])
+            if m:
+                i += len(m.group(0))
+                continue
+            return f"bare backslash at offset {i}"
+        if ch == "_":
+            return f"unescaped underscore at offset {i}"
+        if ch not in "{}":
+            plain.append(ch)
+        i += 1
+    # the characters of the name, except underscores used as separators, appear in order
+    it = iter("".join(plain))
+    for c in name:
+        if c == "_":
+            continue
+        if not any(x == c for x in it):
+            return f"character {c!r} of the name is missing"
+    if "".join(plain).count("\\") != name.count("\\"):
+        return "backslashes of the name are not all kept (escaped) in the label"
+    return None
+
+
 def match_label(label, words, width):
     """Forward matcher: `label` must be `words` in order, separated by one space or one
     line-break marker (two backslashes).  Returns (problem|None, list of lines)."""
@@ -729,10 +764,9 @@ def _check_layout_labels(run, world, lay, width, where):
 def _check_label(run, world, v, label, width, where):
     if world.lab is None:
         if not v.children:
-            sp, gene = v.name.rsplit("_", 1)
-            want = f"{tex_escape(sp)}\\textsubscript{{{tex_escape(gene)}}}"
-            run.check(label == want, ("C15",), "C15.leaf-name",
-                      lambda: f"{where}: leaf {v.name!r} labelled {label!r}, expected {want!r}")
+            problem = escaped_name_problem(label, v.name)
+            run.check(problem is None, ("C15",), "C15.leaf-name",
+                      lambda: f"{where}: leaf {v.name!r} labelled {label!r}: {problem}")
         else:
             run.check(label == "", ("C15",), "C15.unexpected-label",
                       lambda: f"{where}: unlabelled node {world.name_of(v)} shows {label!r}")
@@ -833,6 +867,46 @@ def _check_tikz(run, world, lay, code, width, where, orient):
             if kind == "HORIZONTAL_TRANSFER" and label == r"\phantom{-}":
                 label = ""
             _check_label(run, world, v, label, width, where)
+    # every loss marker is drawn in the species where the loss occurs, on the side of the child
+    # lineage in which the object is lost (not on the side that keeps it)
+    loss_nodes = [n for n in doc["nodes"] if n["style"] == "loss"]
+    for sp, sl in lay.items():
+        for g, b in sl.branches.items():
+            if not isinstance(g, PseudoGene) or sp.is_leaf():
+                continue
+            lost, kept = ((sp.children[1], sp.children[0]) if b.right is None
+                          else (sp.children[0], sp.children[1]))
+            r, t = b.rect, sl.trunk
+            seq = r.y + r.h / 2 if orient == "V" else r.x + r.w / 2
+            lo, hi = (t.x, t.x + t.w) if orient == "V" else (t.y, t.y + t.h)
+            hit = None
+            for n in loss_nodes:
+                n_seq, n_across = (n["y"], n["x"]) if orient == "V" else (n["x"], n["y"])
+                if abs(n_seq - seq) <= 2e-3 and lo - 2e-3 <= n_across <= hi + 2e-3:
+                    hit = (n, n_across)
+                    break
+            run.check(hit is not None, ("C13",), "C13.loss-marker-missing",
+                      lambda: f"{where}: no loss marker drawn on the trunk of species "
+                              f"{sidx[sp]} for one of its losses")
+            if hit is None:
+                continue
+            loss_nodes.remove(hit[0])
+
+            def start(species):
+                rr = lay[species].rect
+                return rr.x if orient == "V" else rr.y
+
+            # the child lineage laid out first along the across axis is on the low side of
+            # the trunk, the other one on the high side
+            mid = (lo + hi) / 2
+            lost_is_low = start(lost) < start(kept)
+            run.check((hit[1] <= mid + 2e-3) if lost_is_low else (hit[1] >= mid - 2e-3),
+                      ("C13",),
+                      "C13.loss-marker-wrong-side",
+                      lambda: f"{where}: in species {sidx[sp]} the object is lost towards "
+                              f"{sidx[lost]} but the loss marker at {hit[1]} is drawn on the "
+                              f"side of {sidx[kept]}, which keeps it")
+            run.probe("loss_side_checked")
     # transfer arrows end at the anchor of the transferred child in the species it lives in
     ends = sorted((round(t["to"][0], 3), round(t["to"][1], 3)) for t in doc["transfers"])
     exp_ends = []
